@@ -195,6 +195,10 @@ def run(ctx):
                 ctx.violated(r3, f, f"join == {arm!r}", f"{q} has no `{arm}` arm: {lname} with clashing names are joined without any check", node=f.node)
                 continue
             body = A.unparse(ast.Module(body=n.body, type_ignores=[]))
+            for c_ in [x for st in n.body for x in ast.walk(st) if isinstance(x, ast.Call) and isinstance(x.func, ast.Name)]:
+                kind_, obj_ = repo.resolve_name(m, c_.func.id)
+                if kind_ == "func" and obj_.module is m:
+                    body += "\n" + A.unparse(obj_.node)  # a module-level helper the arm computes its clash list with
             has_raise = [r for st in n.body for r in ast.walk(st) if isinstance(r, ast.Raise)]
             needs = ("intersection" in body or " & " in body) if arm == "none" else ("Counter" in body or "count" in body or "len(" in body)
             if has_raise and all(_exc(r) == "InvalidWorkspaceOperation" for r in has_raise) and needs:
